@@ -1655,3 +1655,157 @@ func (c *Ctx) ruleFromBlockClamp() {
 		c.ob("R-CLAMP32", "FromBlock.Encode:to-uint32", f.Pos(), false, "no conversion to uint32 found (anchor changed)")
 	}
 }
+
+// R-STOREAFTERADD: a block becomes retrievable only after the block tree accepted it.
+func (c *Ctx) ruleStoreAfterAdd() {
+	f := c.fn("dot/state", "(*BlockState).AddBlockWithArrivalTime")
+	if f == nil {
+		return
+	}
+	c.doc("R-STOREAFTERADD", "BlockState.AddBlockWithArrivalTime: the block is put into the unfinalised-block map only on the success edge of BlockTree.AddBlock — a block the tree rejects (unknown or pruned parent, duplicate) must not stay retrievable, and pruning only removes what the tree reports")
+	var add *ssa.Call
+	eachInstr(f, func(_ *ssa.BasicBlock, _ int, in ssa.Instruction) {
+		if cl, ok := in.(*ssa.Call); ok {
+			nm := ""
+			if cl.Call.IsInvoke() {
+				nm = cl.Call.Method.Name()
+			} else if cal := cl.Call.StaticCallee(); cal != nil {
+				nm = cal.Name()
+			}
+			if nm == "AddBlock" {
+				add = cl
+			}
+		}
+	})
+	n := 0
+	eachInstr(f, func(b *ssa.BasicBlock, _ int, in ssa.Instruction) {
+		cl, ok := in.(*ssa.Call)
+		if !ok || cl.Call.StaticCallee() == nil || cl.Call.StaticCallee().Name() != "store" || len(cl.Call.Args) == 0 {
+			return
+		}
+		if _, fv, ok := fieldLoad(cl.Call.Args[0]); !ok || fv == nil || fv.Name() != "unfinalisedBlocks" {
+			return
+		}
+		n++
+		c.ob("R-STOREAFTERADD", fmt.Sprintf("AddBlockWithArrivalTime:store#%d", n), cl.Pos(), add != nil && guardedBy(b, errSuccessGuard(add)),
+			"the block is stored in the unfinalised-block map before (or regardless of whether) the block tree accepted it: a rejected block — e.g. one whose parent is on a pruned fork — stays retrievable by hash and is never removed by finalisation")
+	})
+	if n == 0 {
+		c.ob("R-STOREAFTERADD", "AddBlockWithArrivalTime:store", f.Pos(), false, "unfinalisedBlocks.store is not called (anchor changed)")
+	}
+}
+
+// R-EQVREMOVE: marking a voter as equivocator always removes its direct vote.
+func (c *Ctx) ruleEquivocatorRemoved() {
+	f := c.fn(gDir, "(*Service).checkAndReportEquivocation")
+	if f == nil {
+		return
+	}
+	c.doc("R-EQVREMOVE", "checkAndReportEquivocation: every path from the insertion of a voter into the equivocation map to any return passes deleteVote(voter, stage): a voter that is both in the equivocation map and still holds a direct vote is counted twice by getTotalVotesForBlock")
+	var del []ssa.Instruction
+	var marks []ssa.Instruction
+	eachInstr(f, func(_ *ssa.BasicBlock, _ int, in ssa.Instruction) {
+		if cl, ok := in.(*ssa.Call); ok && cl.Call.StaticCallee() != nil && cl.Call.StaticCallee().Name() == "deleteVote" {
+			del = append(del, in)
+		}
+		if mu, ok := in.(*ssa.MapUpdate); ok && strings.Contains(mu.Map.Type().String(), "SignedVote") {
+			// only the insertion of a NEW equivocator (two votes), not the append to an existing voter's list
+			extend := false
+			for v := range backwardSlice(mu.Value, nil) {
+				if lk, ok := v.(*ssa.Lookup); ok && lk.X == mu.Map {
+					extend = true
+				}
+			}
+			if !extend {
+				marks = append(marks, in)
+			}
+		}
+	})
+	n := 0
+	for _, m := range marks {
+		n++
+		ok := len(del) > 0
+		for _, r := range returnsOf(f) {
+			if !instrReaches(m, r) {
+				continue
+			}
+			escapes := true
+			for _, d := range del {
+				if !reachesAvoidingInstr(m, r, d) {
+					escapes = false
+				}
+				// a deleteVote that already happened before the mark on every path also counts
+				if instrDominates(d, m) {
+					escapes = false
+				}
+			}
+			if escapes {
+				ok = false
+			}
+		}
+		c.ob("R-EQVREMOVE", fmt.Sprintf("checkAndReportEquivocation:mark#%d", n), m.Pos(), ok,
+			"a path from recording the voter as equivocator to a return skips deleteVote (e.g. the early return when reporting to the runtime fails): the voter then counts as a direct vote AND as an equivocator")
+	}
+	if n == 0 {
+		c.ob("R-EQVREMOVE", "checkAndReportEquivocation:mark", f.Pos(), false, "no insertion into the equivocation map found (anchor changed)")
+	}
+}
+
+// R-FORCEDFILTER: a block's scheduled change is dropped whenever the block also carries a forced change.
+func (c *Ctx) ruleForcedFilter() {
+	f := c.fn("dot/digest", "checkForGRANDPAForcedChanges")
+	if f == nil {
+		return
+	}
+	c.doc("R-FORCEDFILTER", "checkForGRANDPAForcedChanges: the slice returned when a forced change is present never receives a GrandpaScheduledChange digest — no append in the GrandpaScheduledChange case flows to a returned slice — whatever the order of the two items in the header")
+	n := 0
+	eachInstr(f, func(b *ssa.BasicBlock, _ int, in ssa.Instruction) {
+		ta, ok := in.(*ssa.TypeAssert)
+		if !ok || !strings.HasSuffix(ta.AssertedType.String(), "GrandpaScheduledChange") {
+			return
+		}
+		n++
+		// the case body: blocks dominated by the ok-edge of this assertion
+		var okIf *ssa.If
+		var okIdx int
+		for _, r := range *ta.Referrers() {
+			if ex, isEx := r.(*ssa.Extract); isEx && ex.Index == 1 {
+				for _, r2 := range *ex.Referrers() {
+					if iff, isIf := r2.(*ssa.If); isIf {
+						okIf, okIdx = iff, 0
+					}
+				}
+			}
+		}
+		bad := ""
+		if okIf != nil {
+			for _, tb := range f.Blocks {
+				if !edgeDominates(okIf.Block(), okIdx, tb) {
+					continue
+				}
+				for _, in2 := range tb.Instrs {
+					cl, isCall := in2.(*ssa.Call)
+					if !isCall {
+						continue
+					}
+					if bi, isB := cl.Call.Value.(*ssa.Builtin); !isB || bi.Name() != "append" {
+						continue
+					}
+					// does this append reach a returned value?
+					for _, r := range returnsOf(f) {
+						for v := range backwardSlice(resultOf(r, 0), nil) {
+							if v == ssa.Value(cl) {
+								bad = c.pos(cl.Pos())
+							}
+						}
+					}
+				}
+			}
+		}
+		c.ob("R-FORCEDFILTER", fmt.Sprintf("checkForGRANDPAForcedChanges:scheduled-case#%d", n), ta.Pos(), okIf != nil && bad == "",
+			"the GrandpaScheduledChange case appends the digest (at "+bad+") to a slice that is returned: a scheduled change listed before a forced change in the same header survives, and both changes are imported")
+	})
+	if n == 0 {
+		c.ob("R-FORCEDFILTER", "checkForGRANDPAForcedChanges:scheduled-case", f.Pos(), false, "no GrandpaScheduledChange case found (anchor changed)")
+	}
+}
